@@ -247,6 +247,7 @@ Act(e) ==
     [] e.ev = "Reopen"         -> Reopen(e)
     [] e.ev = "OpenResize"     -> OpenResize(e)
     [] e.ev = "Note"           -> Note(e)
+    [] e.ev = "Blocked"        -> Note(e)     \* a Begin did not return although no transaction is open
     [] OTHER                   -> FALSE
 
 Cm0 == [root |-> 0, pages |-> EmptyFn]
@@ -320,6 +321,7 @@ ADev(e) ==
                 ELSE {})
     [] e.ev = "Recovered" -> F("C01", "Recovered", RecoveredOK(e))
     [] e.ev = "RecoverFailed" -> {<<"C01", "RecoverFailed">>}
+    [] e.ev = "Blocked" -> {<<"C09", "BlockedWhenIdle">>}
     [] e.ev = "Reopen" -> F("C10", "ReopenProjection", ProjOf(e.st) = Proj)
     [] e.ev = "OpenResize" ->
          \* the new limit is stored in the header and in force; nothing else of the logical file changed
